@@ -296,12 +296,13 @@ int websocket_compress(const struct websocket *s, uint8_t *dest, uint8_t *src, s
 		return -1;
 	}
 	have = length * 2 - strm->avail_out;
-	if (have < 4) log_err("Deflate not enough space!");
-
-	if (dest[have - 1] != 0xff) log_err("Error remove tail deflate!");
-	if (dest[have - 2] != 0xff) log_err("Error remove tail deflate!");
-	if (dest[have - 3] != 0x00) log_err("Error remove tail deflate!");
-	if (dest[have - 4] != 0x00) log_err("Error remove tail deflate!");
+	if ((strm->avail_out == 0) || (have < 4) ||
+	    (dest[have - 1] != 0xff) || (dest[have - 2] != 0xff) || (dest[have - 3] != 0x00) || (dest[have - 4] != 0x00)) {
+		/* The compressed message did not fit, the rest of it is still pending in the stream. */
+		log_err("Deflate not enough space!");
+		deflateReset(strm);
+		return -1;
+	}
 	have -= 4;
 	return have;
 }
